@@ -281,8 +281,30 @@ class FormDataParser:
         ):
             raise RequestEntityTooLarge()
 
+        if self.max_form_memory_size is None or content_length is not None:
+            data = stream.read()
+        else:
+            # The length isn't known up front, stop reading as soon as the
+            # data exceeds the limit instead of reading all of it.
+            chunks = []
+            remaining = self.max_form_memory_size + 1
+
+            while remaining > 0:
+                chunk = stream.read(remaining)
+
+                if not chunk:
+                    break
+
+                chunks.append(chunk)
+                remaining -= len(chunk)
+
+            if remaining <= 0:
+                raise RequestEntityTooLarge()
+
+            data = b"".join(chunks)
+
         items = parse_qsl(
-            stream.read().decode(),
+            data.decode(),
             keep_blank_values=True,
             errors="werkzeug.url_quote",
         )
